@@ -127,6 +127,9 @@ func (entry *Entry) UnmarshalJSON(b []byte) error {
 	if err := json.Unmarshal(b, &aux); err != nil {
 		return err
 	}
+	if aux == nil { // JSON null
+		return errors.New("OneCRL entry is null")
+	}
 	schemaSeconds := int64(aux.Schema) / 1000
 	schema := time.Unix(schemaSeconds, 0)
 	lastModifiedSeconds := int64(aux.LastModified) / 1000
